@@ -1,6 +1,7 @@
 package harness
 
 import (
+	"fmt"
 	"testing"
 
 	"github.com/kelindar/column"
@@ -20,6 +21,9 @@ func TestC07(t *testing.T) {
 		cfg := TxnCfg{Prop: "C07", MaxSteps: 10, Deletes: true, Inserts: true, Merges: true, OwnUpdates: true, Direct: true,
 			NoStoreOnDel: KFActive("f11-store-and-delete-same-txn"), NoOpAfterLenMerge: KFActive("f15-difflen-merge-reorder")}
 		restores, mutatedAfterRestore, richSnapshot := 0, false, false
+		computed := 0
+		var extra []func(c *column.Collection)
+		_ = extra
 		mutate := func() {
 			if restores > 0 {
 				mutatedAfterRestore = true
@@ -42,6 +46,33 @@ func TestC07(t *testing.T) {
 			"bulkDelete":  func(t *rapid.T) { mc.ActBulkDelete(t); mutate() },
 			"lateColumn":  mc.ActLateColumn,
 			"createIndex": func(t *rapid.T) { mc.ActCreateIndex(t) },
+			"createSortIndexOrTrigger": func(t *rapid.T) {
+				// computed columns that are NOT bitmap indexes also sit in the column registry; columns
+				// created after them must still round-trip
+				if computed >= 2 {
+					t.Skip("enough")
+				}
+				var strs []int
+				for i, cs := range sch.Cols {
+					if cs.Kind == KString && mc.M.ColLive[i] {
+						strs = append(strs, i)
+					}
+				}
+				computed++
+				if len(strs) > 0 && rapid.Bool().Draw(t, "sort-index") {
+					ci := strs[rapid.IntRange(0, len(strs)-1).Draw(t, "sort-col")]
+					mc.logf("createSortIndex sorted%d on %s", computed, sch.Cols[ci].Name)
+					if err := mc.C.CreateSortIndex(fmt.Sprintf("sorted%d", computed), sch.Cols[ci].Name); err != nil {
+						mc.fail(t, "CreateSortIndex: %v", err)
+					}
+					extra = append(extra, func(c *column.Collection) { c.CreateSortIndex(fmt.Sprintf("sorted%d", len(extra)), sch.Cols[ci].Name) })
+				} else {
+					mc.logf("createTrigger trig%d on expire", computed)
+					if err := mc.C.CreateTrigger(fmt.Sprintf("trig%d", computed), "expire", func(column.Reader) {}); err != nil {
+						mc.fail(t, "CreateTrigger: %v", err)
+					}
+				}
+			},
 			"snapshotRestore": func(t *rapid.T) {
 				if restores >= 3 {
 					t.Skip("enough cycles")
